@@ -15,7 +15,7 @@ var harnessIntrinsics = map[string]bool{
 	"vAssume": true, "vAssert": true, "vCheck": true, "vCover": true, "vKnown": true, "vParam": true, "vWant": true,
 	"vHash": true, "vUF": true, "vBytesOf": true, "vU64Of": true, "vMaybe": true, "vMaybeHV": true,
 	"vTime": true, "vZeroTime": true, "vNs": true, "vSymLen": true, "vNote": true, "vCut": true,
-	"vObserve": true, "vSleep": true, "vWall": true,
+	"vObserve": true, "vSleep": true, "vWall": true, "vSelectedOn": true,
 	"vIsSymbolic": true, "vSubFail": true, "vMaybeRec": true, "vMaybeBlock": true, "vMaybePre": true, "vTimeZ": true,
 }
 
@@ -330,6 +330,25 @@ func (x *Exec) harnessIntrinsic(st *State, name string, args []Value) Value {
 		return x.mkIte(t.zero, x.mkConst(64, ^uint64(0)), t.ns)
 	case "vSymLen":
 		return symLenSlice{n: args[0].(*Term)}
+	case "vSelectedOn":
+		// did the latest blocking select wait on this very channel?
+		// (pointers may be guarded choices between objects after a merge: compare per alternative)
+		p := args[0].(PtrV)
+		res := x.mkBool(false)
+		if a, ok := st.heap[selChansCell].(ArrayV); ok {
+			for _, pa := range x.alts(p) {
+				for _, c := range a.e {
+					if cp, ok := c.(PtrV); ok {
+						for _, ca := range x.alts(cp) {
+							if ca.obj == pa.obj {
+								res = x.mkOr(res, x.mkAnd(pa.g, ca.g))
+							}
+						}
+					}
+				}
+			}
+		}
+		return res
 	case "vWall":
 		return x.wallClock(st).ns
 	case "vSleep":
@@ -435,6 +454,12 @@ func (x *Exec) selectOp(st *State, i *ssa.Select) Value {
 		if c, ok := st.heap[selCell].(*Term); ok {
 			cnt = int(c.val)
 		}
+		// remember which channels this select waits on (vSelectedOn)
+		var chans []Value
+		for _, s := range i.States {
+			chans = append(chans, x.val(st, s.Chan))
+		}
+		st.heap[selChansCell] = ArrayV{chans}
 		k := 0
 		if b, ok := x.params["selbound"]; !ok || cnt < b {
 			// (a fork re-executes this instruction: the choice variable is created once and kept
@@ -475,6 +500,7 @@ func (x *Exec) selectOp(st *State, i *ssa.Select) Value {
 const wallCell = -100
 const selCell = -101
 const selPickCell = -102
+const selChansCell = -103
 
 func (x *Exec) timerIntrinsic(st *State, full string, args []Value, call *ssa.Call) (Value, bool) {
 	switch full {
